@@ -92,6 +92,8 @@ func protoTables(p *Prog, r *Report, R string) {
 
 func runC15(p *Prog, r *Report) {
 	connConfiguration(p, r, "C15.13/conn-configuration")
+	stdConfigFields(p, r, "C15.14/std-config-fields")
+	r.Floor("C15.14/std-config-fields", "c15.std_config_field_stores", 5)
 	r.Floor("C15.13/conn-configuration", "c15.conn_method_calls", 10)
 	frameBuffersLocal(p, r, "C15.12/frame-buffers-local")
 	r.Floor("C15.12/frame-buffers-local", "frame_buffers.C15.12/frame-buffers-local", 2)
@@ -171,4 +173,59 @@ func connConfiguration(p *Prog, r *Report, R string) {
 		})
 	}
 	r.Count("c15.conn_method_calls", n)
+}
+
+// stdConfigFields (C15.14): the fields the transports set in the standard library's and
+// gorilla's configuration structs.  The set is closed: a field outside it changes how
+// connections are made or kept (an absolute Deadline computed when the dialer is created makes
+// every dial after that moment fail at once; a Control hook or LocalAddr pins the socket).
+var stdConfigAllowed = map[string]bool{
+	"net.Dialer.KeepAlive": true, "net.Dialer.Timeout": true,
+	"net.ListenConfig.KeepAlive": true,
+	"websocket.Dialer.Subprotocols": true, "websocket.Dialer.TLSClientConfig": true,
+	"websocket.Upgrader.Subprotocols": true, "websocket.Upgrader.CheckOrigin": true,
+	"http.Server.Addr": true, "http.Server.Handler": true,
+	"tls.Config.ClientAuth": true, "tls.Config.InsecureSkipVerify": true, "tls.Config.RootCAs": true, "tls.Config.Certificates": true, "tls.Config.ClientCAs": true, "tls.Config.ServerName": true, "tls.Config.MinVersion": true,
+}
+
+func stdConfigFields(p *Prog, r *Report, R string) {
+	r.Describe(R, "the fields the transports (and macat) set in net.Dialer, net.ListenConfig, tls.Config, http.Server and gorilla's Dialer/Upgrader are from a closed list (keep-alive, timeout, sub-protocols, TLS material, handler): no absolute Deadline, Control hook, LocalAddr or buffer size")
+	n := 0
+	seen := map[string]bool{}
+	for _, fn := range p.Funcs {
+		rel, _ := p.FuncRel(fn)
+		if !(strings.HasPrefix(rel, "transport") || rel == "internal/core" || rel == "macat") {
+			continue
+		}
+		EachInstr(fn, func(in ssa.Instruction) {
+			st, ok := in.(*ssa.Store)
+			if !ok {
+				return
+			}
+			fa, ok := st.Addr.(*ssa.FieldAddr)
+			if !ok {
+				return
+			}
+			fv, owner := fieldAddrVar(fa)
+			if fv == nil || owner == nil || owner.Obj().Pkg() == nil {
+				return
+			}
+			pk := owner.Obj().Pkg().Path()
+			switch pk {
+			case "net", "crypto/tls", "net/http", "github.com/gorilla/websocket":
+			default:
+				return
+			}
+			short := pk[strings.LastIndex(pk, "/")+1:]
+			name := short + "." + owner.Obj().Name() + "." + fv.Name()
+			n++
+			key := p.FuncName(fn) + "/" + name
+			if seen[key] {
+				return
+			}
+			seen[key] = true
+			r.Check(stdConfigAllowed[name], R, key, p.InstrPos(in), "a field of the closed list", name+" is set here and is not one of the configuration fields the transports are known to need: it changes how every later connection is made (an absolute Deadline fixed when the dialer is created fails every dial after it; Control/LocalAddr pin the socket)")
+		})
+	}
+	r.Count("c15.std_config_field_stores", n)
 }
